@@ -39,5 +39,5 @@ def run(tier):
 
 
 def replay(path):
-    print(open(path).read())
-    return 0
+    from lib import vlib
+    return vlib.replay_file(path, run)
